@@ -1,6 +1,7 @@
 package main
 
 import (
+	"bytes"
 	"encoding/binary"
 	"encoding/json"
 	"fmt"
@@ -96,6 +97,47 @@ func (c hCall) common() (common.Request, common.RequestType) {
 }
 
 // callHandler performs the call on any handlers.Handler and returns the Gallina hres.
+// Values handed to a caller stay the caller's: every Data slice a get/gat/gete returned is kept
+// together with a private copy; after later traffic went through the pool they must still agree
+// (the orchestrators keep such values while they talk to the other tier).
+type retItem struct {
+	key        string
+	got, saved []byte
+}
+
+var (
+	retMu    sync.Mutex
+	retItems []retItem
+)
+
+func retain(key, data []byte) {
+	if len(data) == 0 {
+		return
+	}
+	retMu.Lock()
+	retItems = append(retItems, retItem{string(key), data, append([]byte(nil), data...)})
+	retMu.Unlock()
+}
+
+// checkRetained reports (once per call) a retained value that no longer equals its copy and
+// forgets everything retained so far.
+func checkRetained(w *rig.Writer, input interface{}) bool {
+	retMu.Lock()
+	defer retMu.Unlock()
+	bad := false
+	for _, it := range retItems {
+		if !bytes.Equal(it.got, it.saved) {
+			if !bad {
+				w.Fail(rig.GoFailure{Kind: "counterexample", What: "a value returned to a caller of the batching pool changed after later replies were read (the returned slice is not the caller's own)",
+					Input: input, Detail: fmt.Sprintf("key %q: returned %q, now %q", it.key, trunc(string(it.saved), 60), trunc(string(it.got), 60))})
+			}
+			bad = true
+		}
+	}
+	retItems = nil
+	return bad
+}
+
 func callHandler(h handlers.Handler, c hCall) string {
 	errG := func(err error) string { return errGallina(err) }
 	switch c.Kind {
@@ -126,6 +168,7 @@ func callHandler(h handlers.Handler, c hCall) string {
 		if err != nil {
 			return errG(err)
 		}
+		retain(g.Key, g.Data)
 		return gal.App("HVals", gal.List([]string{gresGallina(g.Key, g.Data, g.Flags, g.Opaque, g.Quiet, g.Miss)}), "None")
 	case "get":
 		r, _ := c.common()
@@ -138,6 +181,7 @@ func callHandler(h handlers.Handler, c hCall) string {
 				if !ok {
 					dc = nil
 				} else {
+					retain(g.Key, g.Data)
 					rs = append(rs, gresGallina(g.Key, g.Data, g.Flags, g.Opaque, g.Quiet, g.Miss))
 				}
 			case e, ok := <-ec:
@@ -160,6 +204,7 @@ func callHandler(h handlers.Handler, c hCall) string {
 				if !ok {
 					dc = nil
 				} else {
+					retain(g.Key, g.Data)
 					rs = append(rs, gal.App("mkGR", gal.Bytes(g.Key), gal.Bytes(g.Data), gal.N(uint64(g.Flags)), gal.N(uint64(g.Exptime)),
 						gal.N(uint64(g.Opaque)), gal.Bool(g.Quiet), gal.Bool(g.Miss)))
 				}
@@ -335,6 +380,7 @@ func c06(e *env) {
 		for _, k := range keys {
 			kg = append(kg, gal.Bytes([]byte(k)))
 		}
+		checkRetained(w, map[string]interface{}{"kind": "seq", "calls": calls})
 		w.Add(rig.Case{Desc: map[string]interface{}{"kind": "seq", "calls": calls}, Coq: gal.App("K6Seq", gal.N(cNow), gal.List(kg), gal.List(steps)), Nontrivial: true})
 	}
 
@@ -409,6 +455,7 @@ func c06(e *env) {
 		}
 		w.Count(fmt.Sprintf("concurrent-callers=%d", ncallers))
 		w.Count(fmt.Sprintf("pool=%d", pool))
+		checkRetained(w, map[string]interface{}{"kind": "conc", "pool": pool, "callers": desc})
 		w.Add(rig.Case{Desc: map[string]interface{}{"kind": "conc", "pool": pool, "callers": desc}, Coq: gal.App("K6Conc", gal.N(cNow), gal.List(cg)), Nontrivial: ncallers >= 2})
 	}
 	w.Res.Rule = "(A) conn.batchIntoBuffer on random request lists (1..10 requests, every kind, multi-key gets with duplicate keys and mixed quiet flags) compared with the model's opaque numbering and routing table; (B) command sequences through the real batched handler (batch size 1..10, delay 50..550us) and the real direct handler on twin fake backends: results and backend contents; (C) 1..64 concurrent callers on private keys through pools of 1..4 connections: each caller's results against the sequential model of that caller; non-trivial = batch of >= 2 requests / >= 2 callers"
